@@ -229,7 +229,7 @@ def ob_split_escape(a: str, b: str) -> bool:
     return list(cif._split_one_line(line.strip())) == [a, b] or line.strip()[0] in "#;"
 
 
-MENU = [".", "?", "a", "", "'.'", "x y"]
+MENU = [".", "?", "a", "", "'.'", "x y", ". ", "?" + chr(9), " .", "..", " ?"]      # (near misses of the two mask characters are values)
 
 
 def ob_cif_masks(i: int, j: int, rows: int) -> bool:
